@@ -1,6 +1,7 @@
 package gen
 
 import (
+	"fmt"
 	"github.com/ulikunitz/xz"
 	"github.com/ulikunitz/xz/lzma"
 	"pgregory.net/rapid"
@@ -21,6 +22,9 @@ type Cfg struct {
 	SizeInHeader bool
 	Size         int64
 	EOSMarker    bool
+	// Odd names the one setting DrawOdd pushed outside (or to the edge of)
+	// the documented range; the library decides whether it accepts it
+	Odd string `json:",omitempty"`
 }
 
 func (c Cfg) props() *lzma.Properties {
@@ -104,6 +108,43 @@ func DrawProps(t *rapid.T, c *Cfg, lzma2 bool) {
 		c.LP = rapid.IntRange(0, 4).Draw(t, "lp")
 	}
 	c.PB = rapid.IntRange(0, 4).Draw(t, "pb")
+}
+
+// DrawOdd changes one setting of c to a value outside the documented range or
+// on its edge - lc/lp/pb combinations (for xz and LZMA2 lc+lp must not exceed
+// 4), dictionary capacity, look-ahead size, match finder id, check id, block
+// size - and records which. Whether such a configuration is valid is for the
+// library to say (Verify / the constructor): the properties quantify over the
+// configurations it ACCEPTS, and to everything accepted the whole oracle applies.
+func DrawOdd(t *rapid.T, c *Cfg, format string) {
+	dims := []string{"props", "props", "props", "dictcap", "bufsize", "matcher"}
+	if format == "xz" {
+		dims = append(dims, "check", "blocksize")
+	}
+	switch d := rapid.SampledFrom(dims).Draw(t, "odd"); d {
+	case "props":
+		c.DefProps = false
+		c.LC = rapid.IntRange(0, 9).Draw(t, "oddlc")
+		c.LP = rapid.IntRange(0, 5).Draw(t, "oddlp")
+		c.PB = rapid.IntRange(0, 5).Draw(t, "oddpb")
+		c.Odd = fmt.Sprintf("props=%d/%d/%d", c.LC, c.LP, c.PB)
+	case "dictcap":
+		c.DictCap = rapid.SampledFrom([]int{-1, 1, 273, 4095}).Draw(t, "odddict")
+		c.Odd = fmt.Sprintf("dictcap=%d", c.DictCap)
+	case "bufsize":
+		c.BufSize = rapid.SampledFrom([]int{-1, 1, 272}).Draw(t, "oddbuf")
+		c.Odd = fmt.Sprintf("bufsize=%d", c.BufSize)
+	case "matcher":
+		c.Matcher = rapid.SampledFrom([]int{2, 3, 255}).Draw(t, "oddmatcher")
+		c.Odd = fmt.Sprintf("matcher=%d", c.Matcher)
+	case "check":
+		c.NoCheckSum = false
+		c.CheckSum = byte(rapid.SampledFrom([]int{2, 3, 5, 9, 11, 15, 16, 255}).Draw(t, "oddcheck"))
+		c.Odd = fmt.Sprintf("check=%d", c.CheckSum)
+	case "blocksize":
+		c.BlockSize = rapid.SampledFrom([]int64{-1, -4096}).Draw(t, "oddblock")
+		c.Odd = fmt.Sprintf("blocksize=%d", c.BlockSize)
+	}
 }
 
 // DictCaps are the dictionary capacities the generators aim at.
